@@ -174,6 +174,8 @@ def extract_default(
     start_rest_offset = _end_idx + len(default)
 
     default = default.strip(" \t`")
+    if default == "(None)":  # `NoneStr` is paren-wrapped on Python >= 3.9
+        default = "None"
 
     return _parse_out_default_and_doc(
         _start_idx,
